@@ -641,9 +641,18 @@ func c20Continuation(us []sdk.AccAddress) []c20Op {
 		}},
 		{"v1_dutch_bid_id", m(func() sdk.Msg { return auctiontypes.NewMsgPlaceDutchBid(u6.String(), 1, coin("uasset2", 900000), 4, 3) },
 			func(a *chain.App, c sdk.Context) string { return u(a.AuctionKeeper.GetUserBiddingID(c)) })},
-		{"v1_lend_bid", m(func() sdk.Msg {
-			return auctiontypes.NewMsgPlaceDutchLendBid(u6.String(), 1, coin("uasset1", 1000000), 3, 3)
-		}, nil)},
+		{"v1_lend_bid", func(a *chain.App, c sdk.Context) string {
+			// buy what is left of the second lend auction
+			la, err := a.AuctionKeeper.GetDutchLendAuction(c, 3, 3, 2)
+			if err != nil {
+				return "err"
+			}
+			ok, _ := c20Deliver(a, c, auctiontypes.NewMsgPlaceDutchLendBid(u6.String(), 2, la.OutflowTokenCurrentAmount, 3, 3))
+			if !ok {
+				return "err"
+			}
+			return "ok:" + la.OutflowTokenCurrentAmount.Amount.String()
+		}},
 		{"new_gauge_id", m(func() sdk.Msg {
 			return &rewardstypes.MsgCreateGauge{From: u6.String(), AppId: 1, StartTime: time.Unix(2000009000, 0).UTC(), GaugeTypeId: 1,
 				TriggerDuration: 24 * time.Hour, DepositAmount: coin("ucmdx", 5000000), TotalTriggers: 5,
